@@ -121,4 +121,218 @@ theorem round_inv (g : Graph) (ans : Name → Target → Answer) (s : St) (hi : 
   have := (c p).1 hp
   exact this.2 this.1
 
+
+/-! ### progress by rank -/
+
+/-- an acyclic, feedback-free graph: `rank` grows along dependencies and is bounded -/
+structure Ranked (g : Graph) (rank : Name → Nat) (R : Nat) : Prop where
+  anc : ∀ x a, a ∈ g.ancestry x → rank a < rank x
+  kid : ∀ x c, c ∈ g.children x → rank x < rank c
+  bound : ∀ n, rank n ≤ R
+  nofb : ∀ v, g.feedbackTo v = none
+
+/-- nothing pending or executing at any node of rank below `k` -/
+def CleanBelow (rank : Name → Nat) (k : Nat) (s : St) : Prop :=
+  ∀ n, rank n < k → (s.node n).todo = [] ∧ (s.node n).doing = []
+
+theorem fedBack_nil (g : Graph) (news : List Val) (h : ∀ v, g.feedbackTo v = none) :
+    fedBack g news = [] := by
+  unfold fedBack
+  induction news with
+  | nil => rfl
+  | cons v vs ih => simp [List.filterMap_cons, h v, ih]
+
+theorem mem_dependents (g : Graph) (x : Name) (news : List Val) (c : Name)
+    (h : c ∈ dependents g x news) : c ∈ g.children x := by
+  unfold dependents at h
+  exact (List.mem_filter.1 h).1
+
+/-- an answer for `(x, t)` can only shrink the pending and executing sets of nodes whose rank
+    is not above that of `x` -/
+theorem reply_low (g : Graph) (rank : Name → Nat) (R : Nat) (hr : Ranked g rank R)
+    (s : St) (hi : Inv s) (x : Name) (t : Target) (o : Outcome) (rid : Nat) (news : List Val)
+    (ne : Bool) (n : Name) (hn : rank n ≤ rank x) :
+    (∀ u, u ∈ ((reply g s x t o rid news ne).1.node n).todo → u ∈ (s.node n).todo) ∧
+    (∀ u, u ∈ ((reply g s x t o rid news ne).1.node n).doing → u ∈ (s.node n).doing) := by
+  unfold reply
+  dsimp only
+  split
+  · -- the job was found: complete, then update / purge
+    have hc1 : ∀ u, u ∈ ((complete { s with inflight := s.inflight.erase (x, t) } x t o rid).node n).todo →
+        u ∈ (s.node n).todo := by
+      intro u hu; rw [complete_todo] at hu; exact hu
+    have hc2 : ∀ u, u ∈ ((complete { s with inflight := s.inflight.erase (x, t) } x t o rid).node n).doing →
+        u ∈ (s.node n).doing := by
+      intro u hu
+      unfold complete at hu
+      dsimp only [prune_node] at hu
+      by_cases hx : n = x
+      · subst hx; simp only [setNode_same] at hu; exact (mem_completeNode_doing hu).1
+      · rw [setNode_other _ _ _ _ hx] at hu; exact hu
+    cases o
+    · -- success: only dependents (children of x, of larger rank) are organised
+      dsimp only
+      unfold update
+      split
+      · exact ⟨hc1, hc2⟩
+      · dsimp only
+        rw [fedBack_nil g news hr.nofb]
+        have hnot : n ∉ ([] ++ dependents g x news) := by
+          intro hmem
+          simp only [List.nil_append] at hmem
+          have := hr.kid x n (mem_dependents g x news n hmem)
+          omega
+        split
+        · rw [organize_node]
+          have hsp := orgFold_spec g (complete { s with inflight := s.inflight.erase (x, t) } x t .success rid).targets
+            [] (if ([] : List Name).isEmpty then some rid else none) []
+            (complete { s with inflight := s.inflight.erase (x, t) } x t .success rid).node n
+          rw [hsp.2.2.2.2 (by simp)]
+          exact ⟨hc1, hc2⟩
+        · rw [organize_node]
+          have hsp := orgFold_spec g (complete { s with inflight := s.inflight.erase (x, t) } x t .success rid).targets
+            [t] (if ([] : List Name).isEmpty then some rid else none) ([] ++ dependents g x news)
+            (complete { s with inflight := s.inflight.erase (x, t) } x t .success rid).node n
+          rw [hsp.2.2.2.2 hnot]
+          exact ⟨hc1, hc2⟩
+    · dsimp only
+      have hci := complete_pre s x t .failure rid hi
+      refine ⟨fun u hu => hc1 u (purge_todo_sub g _ x t n u hu), ?_⟩
+      intro u hu
+      unfold purge at hu
+      dsimp only [prune_node] at hu
+      split at hu
+      · rw [purgeNode_doing t _ (hci.dr n)] at hu; exact hc2 u hu
+      · exact hc2 u hu
+    · dsimp only
+      have hci := complete_pre s x t .invalid rid hi
+      refine ⟨fun u hu => hc1 u (purge_todo_sub g _ x t n u hu), ?_⟩
+      intro u hu
+      unfold purge at hu
+      dsimp only [prune_node] at hu
+      split at hu
+      · rw [purgeNode_doing t _ (hci.dr n)] at hu; exact hc2 u hu
+      · exact hc2 u hu
+  · exact ⟨fun u hu => hu, fun u hu => hu⟩
+
+
+/-- answering units whose algorithms all have rank `≥ k` can only shrink what nodes of rank
+    `≤ k` have pending or executing -/
+theorem answerAll_low (g : Graph) (rank : Name → Nat) (R : Nat) (hr : Ranked g rank R)
+    (ans : Name → Target → Answer) (k : Nat) (l : List (Name × Target)) (s : St)
+    (hi : Inv s) (h2 : Inv2 g s) (hl : ∀ p ∈ l, p ∈ s.inflight) (hnd : l.Nodup)
+    (hk : ∀ p ∈ l, k ≤ rank p.1) (n : Name) (hn : rank n ≤ k) :
+    (∀ u, u ∈ ((answerAll g ans s l).node n).todo → u ∈ (s.node n).todo) ∧
+    (∀ u, u ∈ ((answerAll g ans s l).node n).doing → u ∈ (s.node n).doing) := by
+  induction l generalizing s with
+  | nil => exact ⟨fun u hu => hu, fun u hu => hu⟩
+  | cons p ps ih =>
+    rw [List.nodup_cons] at hnd
+    have hp : p ∈ s.inflight := hl p (by simp)
+    have hi' : Inv (answer g ans s p) := reply_inv g s p.1 p.2 _ _ _ _ hi
+    have h2' : Inv2 g (answer g ans s p) := reply_inv2 g s p.1 p.2 _ _ _ _ hi h2 hp
+    have hfl : (answer g ans s p).inflight = s.inflight.erase p := reply_inflight g s p.1 p.2 _ _ _ _
+    have hl' : ∀ q ∈ ps, q ∈ (answer g ans s p).inflight := by
+      intro q hq
+      rw [hfl, List.Nodup.mem_erase_iff h2.nd]
+      exact ⟨fun c => hnd.1 (c ▸ hq), hl q (by simp [hq])⟩
+    obtain ⟨a, b⟩ := ih (answer g ans s p) hi' h2' hl' hnd.2 (fun q hq => hk q (by simp [hq]))
+    have hlow := reply_low g rank R hr s hi p.1 p.2 (ans p.1 p.2).outcome (ans p.1 p.2).rid
+      (ans p.1 p.2).news (ans p.1 p.2).nonempty n (Nat.le_trans hn (hk p (by simp)))
+    simp only [answerAll, List.foldl_cons] at a b ⊢
+    exact ⟨fun u hu => hlow.1 u (a u hu), fun u hu => hlow.2 u (b u hu)⟩
+
+/-- One round makes progress by one rank: with nothing in flight and everything of rank below
+    `k` clean, a round leaves everything of rank below `k + 1` clean (and again nothing in flight). -/
+theorem round_progress (g : Graph) (rank : Name → Nat) (R : Nat) (hr : Ranked g rank R)
+    (ans : Name → Target → Answer) (k : Nat) (s : St) (hi : Inv s) (h2 : Inv2 g s)
+    (hp : s.paused = false) (hfl : s.inflight = []) (hc : CleanBelow rank k s) :
+    CleanBelow rank (k + 1) (round g ans s) := by
+  have hdoing : ∀ m, (s.node m).doing = [] := by
+    intro m
+    rw [List.eq_nil_iff_forall_not_mem]
+    intro t ht
+    have := hi.di m t ht
+    rw [hfl] at this; simp at this
+  have hnotrun : ∀ m, (s.node m).running = false := by
+    intro m
+    cases hrn : (s.node m).running
+    · rfl
+    · obtain ⟨t, ht⟩ := hi.ri m hrn
+      rw [hfl] at ht; simp at ht
+  -- after the dispatch tick: nothing pending at ranks ≤ k
+  have hs1 : ∀ n, rank n ≤ k → ((dispatch g s).1.node n).todo = [] := by
+    intro n hn
+    rw [List.eq_nil_iff_forall_not_mem]
+    intro u hu
+    have hsame := dispatch_same g s
+    unfold dispatch at hu hsame
+    simp only [hp, Bool.false_eq_true, if_false] at hu hsame
+    have hrel := releaseAll_rel g s s.que
+    have hu1 : u ∈ ((releaseAll g s s.que).1.node n).todo := by
+      rw [← ((foldl_putJob_spec g _ _).2.2 n).1]; exact hu
+    have hu0 : u ∈ (s.node n).todo := hrel.todo n u hu1
+    by_cases hlt : rank n < k
+    · rw [(hc n hlt).1] at hu0; simp at hu0
+    · -- rank n = k: the unit is runnable, hence released, hence gone from todo
+      have hrun : Runnable g s n u := by
+        refine ⟨hu0, by rw [hdoing n]; simp, ?_, ?_⟩
+        · intro hne hall
+          by_cases hka : g.kind n = .analysis
+          · exact hne ((h2.ka n hka).1 u hu0)
+          · exact (h2.kt n hka).1 hall
+        · intro a ha
+          have hlt' : rank a < k := by have := hr.anc n a ha; omega
+          obtain ⟨c1, c2⟩ := hc a hlt'
+          refine ⟨by simp [busy, c1, c2], by simp [busy, c1, c2], ?_⟩
+          intro _ haq
+          have hl := hi.ql a haq
+          rw [live_iff, c1, c2, hnotrun a] at hl
+          simp at hl
+      have hxq : n ∈ s.que := hi.lq n (live_of_work (Or.inl (List.ne_nil_of_mem hu0)))
+      have hreleased := runnable_released_aux g s n u hrun s.que hxq s (Same.refl s) rfl
+      exact hrel.gone n u hreleased hu1
+  have hi1 := dispatch_inv g s hi
+  have h21 := dispatch_inv2 g s h2
+  -- every unit in flight after the tick sits at rank ≥ k
+  have hsame := dispatch_same g s
+  have hk : ∀ p ∈ (dispatch g s).1.inflight, k ≤ rank p.1 := by
+    intro p hp'
+    have hd := h21.fd p.1 p.2 hp'
+    have hb : busy s p.1 p.2 := (hsame.2 p.1 p.2).1 (Or.inr hd)
+    by_cases hlt : rank p.1 < k
+    · obtain ⟨c1, c2⟩ := hc p.1 hlt
+      unfold busy at hb; rw [c1, c2] at hb; simp at hb
+    · omega
+  intro n hn
+  have hn' : rank n ≤ k := by omega
+  obtain ⟨a, b⟩ := answerAll_low g rank R hr ans k (dispatch g s).1.inflight (dispatch g s).1
+    hi1 h21 (fun p hp' => hp') h21.nd hk n hn'
+  obtain ⟨hir, _, hflr, _⟩ := round_inv g ans s hi h2
+  refine ⟨?_, ?_⟩
+  · rw [List.eq_nil_iff_forall_not_mem]
+    intro u hu
+    have := a u hu
+    rw [hs1 n hn'] at this; simp at this
+  · rw [List.eq_nil_iff_forall_not_mem]
+    intro u hu
+    have := hir.di n u hu
+    rw [hflr] at this; simp at this
+
+theorem rounds_clean (g : Graph) (rank : Name → Nat) (R : Nat) (hr : Ranked g rank R)
+    (ans : Name → Target → Answer) (j : Nat) (k : Nat) (s : St) (hi : Inv s) (h2 : Inv2 g s)
+    (hp : s.paused = false) (hfl : s.inflight = []) (hc : CleanBelow rank k s) :
+    CleanBelow rank (k + j) (rounds g ans j s) ∧ Inv (rounds g ans j s) ∧
+    (rounds g ans j s).inflight = [] := by
+  induction j generalizing k s with
+  | zero => exact ⟨hc, hi, hfl⟩
+  | succ j ih =>
+    obtain ⟨a, b, c, d⟩ := round_inv g ans s hi h2
+    have hprog := round_progress g rank R hr ans k s hi h2 hp hfl hc
+    have := ih (k + 1) (round g ans s) a b (by rw [d]; exact hp) c hprog
+    simp only [rounds]
+    have e : k + 1 + j = k + (j + 1) := by omega
+    rw [e] at this
+    exact this
+
 end DawgieVerif.Sched
